@@ -118,6 +118,21 @@ def run(ctx: Ctx) -> None:
     lines_d, exp_d, lines_t, exp_t, metas = [], [], [], [], []
     from markdown_it.tree import SyntaxTreeNode
 
+    # ---- delimiter-heavy inline text (emphasis / strikethrough post-processing retypes tokens in place): every stream it yields
+    #      converts to a tree and back; bounded-exhaustive over short concatenations, plus random longer ones, strikethrough on
+    from markdown_it import MarkdownIt
+    dmd = MarkdownIt("js-default")
+    dmd._verif_cfg = "js-default"
+    dsrc = list(gens.delim_sweep(4 if quick else 5)) + [gens.rand_delims(rng) for _ in range(300 if quick else 6000)]
+    for src in dsrc:
+        env = {}
+        try:
+            tokens = dmd.parse(src, env)
+        except Exception:
+            continue
+        ctx.count((src, "delims"), nontrivial=any(t.children and len(t.children) > 1 for t in tokens))
+        check_stream(ctx, dmd, src, tokens, env)
+
     # ---- documents at scale (limits and guards that only large inputs reach): tree builds and flattens back, render repeats
     from markdown_it import MarkdownIt
     big = MarkdownIt("js-default")
@@ -253,7 +268,8 @@ def search(ctx: Ctx):
 
 def replay(ctx: Ctx, obj: dict) -> bool:
     if "input" in obj:
-        md = gens.make_md(gens.FIXED_CFGS[0])
+        from markdown_it import MarkdownIt
+        md = MarkdownIt("js-default") if obj.get("cfg") == "js-default" else gens.make_md(gens.FIXED_CFGS[0])
         env = {}
         toks = md.parse(obj["input"], env)
         c = Ctx(ctx.pid, "quick", 0)
